@@ -1,5 +1,6 @@
 import PestModel.Model.Reader
 import PestModel.Model.ReaderFull
+import PestModel.Model.ReaderP
 import PestModel.Model.GrammarDriver
 import PestModel.Model.Proto
 /-! Driver mode `read` (one answer line per input line; `<hex …>` = lower/upper-case hex of the UTF-8
@@ -46,10 +47,16 @@ def runQ (body : List Char) : String :=
 def runR (extras : Bool) (h : String) : String :=
   match hexOrDash h with
   | some t =>
-    match PestModel.ReaderFull.readGrammarOutcome extras t.toList with
-    | some (some rs) => "rules " ++ PestModel.GrammarDriver.showRules rs
-    | some none => "reject"
-    | none => "stuck"
+    -- both reader models: the three-valued one (`ReaderP`, C09: located error vs panic) and the two-valued one the C07
+    -- theorems are about (`ReaderFull`); they must agree (checked here on every text, not proved)
+    match PestModel.ReaderP.readGrammar extras t.toList, PestModel.ReaderFull.readGrammarOutcome extras t.toList with
+    | some (.ok rs), some (some rs') =>
+      if PestModel.GrammarDriver.showRules rs = PestModel.GrammarDriver.showRules rs' then "rules " ++ PestModel.GrammarDriver.showRules rs
+      else "MODELS-DISAGREE"
+    | some .err, some none => "reject"
+    | some .panic, some none => "panic"
+    | none, none => "stuck"
+    | _, _ => "MODELS-DISAGREE"
   | none => "bad-op"
 
 def runLine (line : String) : String :=
